@@ -31,6 +31,7 @@
 -/
 import Csvq.Lemmas.Csv
 import Csvq.Lemmas.CsvRect
+import Csvq.Lemmas.Ltsv
 namespace Csvq.C02
 open Csvq.Csv
 
@@ -317,5 +318,196 @@ example :
     decodeCsv o ['"', 'a', '"', ',', '"', 'b', '"', '\r', '\n', '"', 'x', '\r', '\n', 'y', ',', '"', '"', '"', ',', '\r', '\n', '1', ',', '"', '"', '\r', '\n'] = .ok (canon o t) ∧
     canon o t = ⟨[['a'], ['b']], [[some ['x', '\r', '\n', 'y', ',', '"'], none], [some ['1'], some []]]⟩ := by
   refine ⟨rfl, rfl, rfl⟩
+
+/-! ## LTSV
+
+  Full statement:  `ltsv_roundtrip : LtsvSpellable t → t.header.Nodup →
+                      ∃ b, fileLtsv o t = ok b ∧ decodeLtsv o b = ok (Ltsv.canon o t)`
+  together with `ltsv_refuse_or_spell` (everything else is refused with an error).
+  The refusal half is proved.  The round trip FAILS on the pinned dependency (go-text v1.6.0
+  ltsv.Reader), confirmed on the real code:
+    (F13) every ':' inside a value is dropped                     [roundtrip:ltsv:colon_in_value]
+          → `ltsv_colon_counterexample`
+    (new) a record of ONE field is skipped like an empty line, so a single-column table reads
+          back with no record and no column                       [roundtrip:ltsv:single_field_record]
+          → `ltsv_single_field_counterexample`
+    (new) CR as ending line break: the reader fails at end of input [roundtrip:ltsv:cr_ending_line_break]
+  Proved: `ltsv_roundtrip_partial` for all tables with ≥ 2 distinct labels and no ':' in a value. -/
+
+namespace L
+open Csvq.Ltsv
+
+/-- exactly what the LTSV writer accepts -/
+def LtsvSpellable (t : Table) : Prop :=
+  t.rows ≠ [] ∧ (∀ l ∈ t.header, l.all labelChar = true) ∧
+  ∀ r ∈ t.rows, r.length = t.header.length ∧ ∀ c ∈ r, c.text.all valueChar = true
+
+instance (t : Table) : Decidable (LtsvSpellable t) := by unfold LtsvSpellable; infer_instance
+
+/-- what the pinned reader additionally needs -/
+def LtsvReadable (o : Ltsv.Opts) (t : Table) : Prop :=
+  2 ≤ t.header.length ∧ t.header.Nodup ∧ (∀ r ∈ t.rows, ∀ c ∈ r, ':' ∉ c.text) ∧ o.ending ≠ some .cr
+
+instance (o : Ltsv.Opts) (t : Table) : Decidable (LtsvReadable o t) := by unfold LtsvReadable; infer_instance
+
+/-- **Refuse or spell** (LTSV): a table with an unpermitted label character, an unpermitted value
+    character (TAB, CR, LF, NUL, U+100000…) or without records is answered by an error; every other
+    rectangular table is written. -/
+theorem ltsv_refuse_or_spell (o : Ltsv.Opts) (t : Table) :
+    (¬ LtsvSpellable t → ∃ e, fileLtsv o t = .error e) ∧
+    (LtsvSpellable t → fileLtsv o t =
+      .ok (Ltsv.writeAll o.lb t.header (t.rows.map (·.map Cell.text)) ++ endingChars o.ending)) := by
+  unfold fileLtsv encodeLtsv LtsvSpellable
+  cases hr : t.rows with
+  | nil => simp
+  | cons r rs =>
+    simp only [ne_eq, reduceCtorEq, not_false_eq_true, true_and]
+    by_cases h1 : t.header.all (·.all labelChar) = false
+    · simp only [h1, if_true]
+      refine ⟨fun _ => ⟨_, rfl⟩, ?_⟩
+      intro ⟨hl, _⟩
+      have : t.header.all (·.all labelChar) = true := List.all_eq_true.mpr hl
+      rw [this] at h1; cases h1
+    · have h1' : t.header.all (·.all labelChar) = true := by simpa using h1
+      simp only [h1', Bool.true_eq_false, if_false]
+      by_cases h2 : (r :: rs).all (fun r => decide (r.length = t.header.length)) = false
+      · simp only [h2, if_true]
+        refine ⟨fun _ => ⟨_, rfl⟩, ?_⟩
+        intro ⟨_, hrows⟩
+        have : (r :: rs).all (fun r => decide (r.length = t.header.length)) = true :=
+          List.all_eq_true.mpr (fun x hx => by simpa using (hrows x hx).1)
+        rw [this] at h2; cases h2
+      · have h2' : (r :: rs).all (fun r => decide (r.length = t.header.length)) = true := by simpa using h2
+        simp only [h2', Bool.true_eq_false, if_false]
+        by_cases h3 : (r :: rs).all (fun r => r.all (fun c => c.text.all valueChar)) = false
+        · simp only [h3, if_true]
+          refine ⟨fun _ => ⟨_, rfl⟩, ?_⟩
+          intro ⟨_, hrows⟩
+          have : (r :: rs).all (fun r => r.all (fun c => c.text.all valueChar)) = true :=
+            List.all_eq_true.mpr (fun x hx => List.all_eq_true.mpr (fun c hc => (hrows x hx).2 c hc))
+          rw [this] at h3; cases h3
+        · have h3' : (r :: rs).all (fun r => r.all (fun c => c.text.all valueChar)) = true := by simpa using h3
+          simp only [h3', Bool.true_eq_false, if_false]
+          refine ⟨?_, fun _ => by first | rfl | trivial⟩
+          intro hn
+          exfalso
+          apply hn
+          refine ⟨List.all_eq_true.mp h1', ?_⟩
+          intro x hx
+          refine ⟨by simpa using List.all_eq_true.mp h2' x hx, ?_⟩
+          exact List.all_eq_true.mp (List.all_eq_true.mp h3' x hx)
+
+/-- **Round trip on the pinned reader** (LTSV): every table the writer accepts that has at least two
+    columns with distinct labels and no ':' inside a value loads back as `canon` (empty text and
+    NULL are one spelling), for every line break and ending line break other than a bare CR. -/
+theorem ltsv_roundtrip_partial (o : Ltsv.Opts) (t : Table) (hs : LtsvSpellable t) (hr : LtsvReadable o t) :
+    ∃ b, fileLtsv o t = .ok b ∧ decodeLtsv o b = .ok (Ltsv.canon o t) := by
+  obtain ⟨hne, hlab, hrows⟩ := hs
+  obtain ⟨h2, hnd, hcolon, hend⟩ := hr
+  refine ⟨_, (ltsv_refuse_or_spell o t).2 ⟨hne, hlab, hrows⟩, ?_⟩
+  cases hrw : t.rows with
+  | nil => exact absurd hrw hne
+  | cons r rs =>
+    have hLab : Ltsv.LabelsOK t.header := ⟨h2, hnd, fun l hl c hc =>
+      plain_of_labelChar c (List.all_eq_true.mp (hlab l hl) c hc)⟩
+    have hOK : Ltsv.RecsOK t.header (r.map Cell.text :: rs.map (·.map Cell.text)) := by
+      intro vs hvs
+      rw [← List.map_cons (f := fun x => List.map Cell.text x)] at hvs
+      obtain ⟨row, hrow, rfl⟩ := List.mem_map.mp hvs
+      have hrow' : row ∈ t.rows := hrw ▸ hrow
+      refine ⟨by simp [(hrows row hrow').1], ?_⟩
+      intro v hv c hc
+      obtain ⟨cell, hcell, rfl⟩ := List.mem_map.mp hv
+      exact plain_of_valueChar c (List.all_eq_true.mp ((hrows row hrow').2 cell hcell) c hc)
+        (fun e => hcolon row hrow' cell hcell (e ▸ hc))
+    obtain ⟨σ, hσ, hrecs, hhead⟩ := Ltsv.run_rows o.lb t.header hLab o.ending hend (rs.map (·.map Cell.text))
+      (r.map Cell.text) {} [] hOK (Or.inl rfl)
+    have hread : Ltsv.readAll (Ltsv.writeAll o.lb t.header ((r :: rs).map (·.map Cell.text)) ++ endingChars o.ending)
+        = .ok σ := by
+      simp only [List.map_cons, Ltsv.writeAll, List.append_assoc]
+      exact hσ
+    unfold decodeLtsv
+    rw [hread]
+    simp only [hhead, hrecs, List.reverse_reverse, List.append_nil, Ltsv.assemble, Ltsv.canon]
+    rw [hrw]
+    have hrowsEq : List.map ((fun rec => List.map (Ltsv.lookup o.withoutNull rec) t.header) ∘
+          fun v => (t.header.zip v).reverse)
+          (List.map Cell.text r :: List.map (fun x => List.map Cell.text x) rs)
+        = List.map (fun x => List.map (Ltsv.canonCell o) x) (r :: rs) := by
+      rw [← List.map_cons (f := fun x => List.map Cell.text x), List.map_map]
+      apply List.map_congr_left
+      intro row hrow
+      have hrow' : row ∈ t.rows := hrw ▸ hrow
+      simp only [Function.comp]
+      rw [Ltsv.lookup_record o.withoutNull t.header (row.map Cell.text) (by simp [(hrows row hrow').1]) hnd]
+      simp only [List.map_map]
+      apply List.map_congr_left
+      intro c _
+      simp only [Function.comp, Ltsv.canonText, Ltsv.canonCell]
+      cases c.text <;> rfl
+    first
+      | rw [hrowsEq]
+      | (simp only [List.map_map] at hrowsEq ⊢; rw [hrowsEq])
+
+/-- **Rectangular, for ALL inputs** (LTSV): every record of the loaded view has as many fields as
+    the header (short records are padded by the loader). -/
+theorem ltsv_rectangular (o : Ltsv.Opts) (inp : List Char) (t : DTable) (h : decodeLtsv o inp = .ok t) :
+    ∀ row ∈ t.rows, row.length = t.header.length := by
+  unfold decodeLtsv at h
+  split at h
+  · cases h
+  · injection h with h
+    subst h
+    intro row hrow
+    simp only [Ltsv.assemble, List.mem_map] at hrow
+    obtain ⟨rec, _, rfl⟩ := hrow
+    simp [Ltsv.assemble]
+
+/-- **No shift** (LTSV): position (i, j) of what is read back is the canonical form of the cell at
+    (i, j). -/
+theorem ltsv_no_shift (o : Ltsv.Opts) (t : Table) (hs : LtsvSpellable t) (hr : LtsvReadable o t) :
+    ∃ b d, fileLtsv o t = .ok b ∧ decodeLtsv o b = .ok d ∧ d.header = t.header ∧
+      d.rows.length = t.rows.length ∧
+      ∀ i j : Nat, (d.rows[i]?.bind fun (r : List DCell) => r[j]?)
+        = (t.rows[i]?.bind fun (r : List Cell) => r[j]?).map (Ltsv.canonCell o) := by
+  obtain ⟨b, h1, h2⟩ := ltsv_roundtrip_partial o t hs hr
+  refine ⟨b, Ltsv.canon o t, h1, h2, rfl, by simp [Ltsv.canon], ?_⟩
+  intro i j
+  simp only [Ltsv.canon, List.getElem?_map]
+  cases t.rows[i]? with
+  | none => rfl
+  | some r => simp [List.getElem?_map]
+
+/-- F13: the value `12:30` is written as `a:12:30` and read back as `1230`. -/
+theorem ltsv_colon_counterexample :
+    let o : Ltsv.Opts := {}
+    let t : Table := ⟨[['a'], ['b']], [[.str ['1', '2', ':', '3', '0'], .raw ['2']]]⟩
+    LtsvSpellable t ∧
+    fileLtsv o t = .ok ['a', ':', '1', '2', ':', '3', '0', '\t', 'b', ':', '2'] ∧
+    decodeLtsv o ['a', ':', '1', '2', ':', '3', '0', '\t', 'b', ':', '2'] = .ok ⟨[['a'], ['b']], [[some ['1', '2', '3', '0'], some ['2']]]⟩ := by
+  refine ⟨by decide, rfl, rfl⟩
+
+/-- a single-column table is written as one field per line — and every such line is skipped. -/
+theorem ltsv_single_field_counterexample :
+    let o : Ltsv.Opts := { ending := some .lf }
+    let t : Table := ⟨[['a']], [[.raw ['1']], [.raw ['2']]]⟩
+    LtsvSpellable t ∧
+    fileLtsv o t = .ok ['a', ':', '1', '\n', 'a', ':', '2', '\n'] ∧
+    decodeLtsv o ['a', ':', '1', '\n', 'a', ':', '2', '\n'] = .ok ⟨[], []⟩ := by
+  refine ⟨by decide, rfl, rfl⟩
+
+/-- non-vacuity: a table with blanks, quotation marks, backslashes, an empty text and NULL -/
+example :
+    let o : Ltsv.Opts := { lb := .crlf, ending := some .crlf }
+    let t : Table := ⟨[['k', '-', '1'], ['v', '_', '2']], [[.str [' ', 'x', ' ', '"', 'y', '"', '\\', ' '], .null], [.str [], .raw ['7']]]⟩
+    LtsvSpellable t ∧ LtsvReadable o t ∧
+    fileLtsv o t = .ok ['k', '-', '1', ':', ' ', 'x', ' ', '"', 'y', '"', '\\', ' ', '\t', 'v', '_', '2', ':', '\r', '\n', 'k', '-', '1', ':', '\t', 'v', '_', '2', ':', '7', '\r', '\n'] ∧
+    decodeLtsv o ['k', '-', '1', ':', ' ', 'x', ' ', '"', 'y', '"', '\\', ' ', '\t', 'v', '_', '2', ':', '\r', '\n', 'k', '-', '1', ':', '\t', 'v', '_', '2', ':', '7', '\r', '\n'] = .ok ⟨[['k', '-', '1'], ['v', '_', '2']], [[some [' ', 'x', ' ', '"', 'y', '"', '\\', ' '], none], [none, some ['7']]]⟩ := by
+  refine ⟨by decide, by decide, rfl, rfl⟩
+
+example : ¬ LtsvSpellable ⟨[['a', ' ', 'b']], [[.str ['x']]]⟩ := by decide
+example : ¬ LtsvSpellable ⟨[['a']], [[.str ['x', '\t', 'y']]]⟩ := by decide
+
+end L
 
 end Csvq.C02
